@@ -12,7 +12,22 @@ def quoter(run):
     for c in sc.children:
         if c.name == 'maybe_quote':
             return sc, c
-    # accept a module/class level helper applied to the values
+    # role: the one function applied to each element of a list in set_conf (`[f(v) for v in values]`), nested in set_conf, at module
+    # level, or a method of the protocol - a clean-up may move or rename it
+    cands = []
+    for n in walk_unit(sc):
+        if isinstance(n, ast.ListComp) and isinstance(n.elt, ast.Call) and len(n.elt.args) == 1 and isinstance(n.elt.args[0], ast.Name) \
+                and isinstance(n.generators[0].target, ast.Name) and n.elt.args[0].id == n.generators[0].target.id:
+            f = n.elt.func
+            tgt = None
+            if isinstance(f, ast.Name):
+                tgt = next((c for c in sc.children if c.name == f.id), None) or sc.module.functions.get(f.id)
+            elif isinstance(f, ast.Attribute) and dotted(f.value) == 'self':
+                tgt = run.idx.find_method(sc.owner_cls, f.attr)
+            if tgt is not None and any(isinstance(x, ast.Constant) and x.value in ('"%s"', '"', '\\"') for x in walk_unit(tgt)):
+                cands.append(tgt)
+    if len(cands) == 1:
+        return sc, cands[0]
     raise AnchorVanished('set_conf.maybe_quote')
 
 
@@ -69,6 +84,16 @@ def r12_1(run):
                 ok = g.edge_dominates(t, 'F', r) or not any(r in g.reachable([s_ for lab, s_ in t.succ if lab == 'T']) for _ in (0,))
                 run.ob('R12.1', q, r.ast, 'the unquoted form is returned only when no quoting trigger matched', ok, slot='plain-guarded',
                        message='maybe_quote can return the value unquoted although a trigger character matched')
+    # (a') an unquoted value is sent exactly as given: Tor takes a run of non-blank characters literally (no unescaping outside
+    # quotes), so an "escaped" plain return doubles every backslash
+    qdefs = local_defs(q)
+    for r in plain:
+        v = r.ast.value
+        if isinstance(v, ast.Name) and v.id != p and single_def(qdefs, v.id) and single_def(qdefs, v.id)[0] == 'expr':
+            v = single_def(qdefs, v.id)[1]
+        run.ob('R12.1', q, r.ast, 'the unquoted form is the value itself, untransformed', dotted(v) == p, slot='plain-verbatim',
+               message='maybe_quote returns %s for a value that needs no quotes: outside quotes Tor does not unescape, so a backslash in such a value arrives doubled'
+                       % src(v)[:50])
     # (b) inside quotes: backslash escaped first, then the double quote
     for r, sh in quoted:
         holes = [h for h in sh if isinstance(h, Hole)]
@@ -169,6 +194,13 @@ def r12_3(run):
     joins = [n for n in walk_unit(sc) if isinstance(n, ast.Call) and callee_attr(n) == 'join' and const(receiver(n)) == ' ']
     run.ob('R12.3', sc, sc.node, 'items separated by exactly one space', len(joins) == 1, slot='join', message='set_conf joins items with %s' % [src(receiver(j)) for j in [n for n in walk_unit(sc) if isinstance(n, ast.Call) and callee_attr(n) == 'join']])
     allnodes = list(walk_unit(sc)) + [n for ch in sc.children if isinstance(ch.node, ast.Lambda) for n in walk_unit(ch)]
+    # (an item formatter over zip(keys, values) must use the pair in (key, value) order)
+    for n in allnodes:
+        if isinstance(n, (ast.ListComp, ast.GeneratorExp)) and isinstance(n.generators[0].iter, ast.Call) and dotted(n.generators[0].iter.func) == 'zip' \
+                and isinstance(n.generators[0].target, ast.Tuple) and isinstance(n.elt, ast.BinOp) and isinstance(n.elt.right, ast.Tuple):
+            tnames = [dotted(e) for e in n.generators[0].target.elts]
+            used = [dotted(e) for e in n.elt.right.elts]
+            run.ob('R12.3', sc, n, 'the item formatter writes key before value', tnames == used, slot='item-order', message='items formatted as %s from %s' % (used, tnames))
     fmts = [const(n.left) for n in allnodes if isinstance(n, ast.BinOp) and isinstance(n.op, ast.Mod) and isinstance(const(n.left), str)]
     fmts += [const(receiver(n)) for n in allnodes if isinstance(n, ast.Call) and callee_attr(n) == 'format' and isinstance(const(receiver(n)), str)]
     run.ob('R12.3', sc, sc.node, 'each item is key=value', '%s=%s' in fmts or '{}={}' in fmts, slot='item-format', message='item formats: %s' % fmts)
@@ -180,6 +212,10 @@ def r12_3(run):
                 it = d[1].generators[0].iter
                 if isinstance(it, ast.Call) and dotted(it.func) == 'range' and len(it.args) == 3:
                     ranges[name] = (const(it.args[0]), const(it.args[2]), src(d[1].elt))
+            # the same as an extended slice: X[0::2] / X[::2] and X[1::2]
+            if d[0] == 'expr' and isinstance(d[1], ast.Subscript) and isinstance(d[1].slice, ast.Slice) and d[1].slice.upper is None and const(d[1].slice.step) == 2:
+                lo = 0 if d[1].slice.lower is None else const(d[1].slice.lower)
+                ranges[name] = (lo, 2, src(d[1].value))
     # the item formatter pairs (even-position name, odd-position name) in that order
     even = [n for n, r in ranges.items() if r[:2] == (0, 2)]
     odd = [n for n, r in ranges.items() if r[:2] == (1, 2)]
@@ -271,6 +307,7 @@ RULES = [
 from ..selftest import M  # noqa: E402
 F = 'txtorcon/torcontrolprotocol.py'
 MUTANTS = [
+    M('unquoted-values-escaped-too', F, "            if ' ' in s or '\\t' in s or '\"' in s:\n                return '\"%s\"' % s.replace('\\\\', '\\\\\\\\').replace('\"', '\\\\\"')\n            return s\n", "            escaped = s.replace('\\\\', '\\\\\\\\').replace('\"', '\\\\\"')\n            if ' ' in s or '\\t' in s or '\"' in s:\n                return '\"%s\"' % escaped\n            return escaped\n", ['R12.1']),
     M('printable-only-filter', F, "        if not isinstance(cmd, bytes):\n            cmd = cmd.encode('ascii')\n        d = defer.Deferred()", "        if not isinstance(cmd, bytes):\n            if not cmd.isprintable():\n                return defer.fail(ValueError('control characters'))\n            cmd = cmd.encode('ascii')\n        d = defer.Deferred()", ['R12.5']),
     M('length-limit', F, "        keys = [strargs[i] for i in range(0, len(strargs), 2)]", "        if any(len(x) > 255 for x in strargs):\n            raise ValueError('too long')\n        keys = [strargs[i] for i in range(0, len(strargs), 2)]", ['R12.5']),
     M('crlf-both-required', F, "if any('\\r' in x or '\\n' in x for x in strargs):", "if any('\\r' in x and '\\n' in x for x in strargs):", ['R12.2']),
@@ -288,6 +325,9 @@ MUTANTS = [
     M('setconf-per-pair', F, "        return self.queue_command('SETCONF ' + args)", "        for a in args.split(' ')[:-1]:\n            self.queue_command('SETCONF ' + a)\n        return self.queue_command('SETCONF ' + args)", ['R12.3']),
 ]
 TWINS = [
+    M('pairing-by-slices-and-zip', F, ["        keys = [strargs[i] for i in range(0, len(strargs), 2)]\n        values = [strargs[i] for i in range(1, len(strargs), 2)]\n", "        args = ' '.join(map(lambda x, y: '%s=%s' % (x, y), keys, values))\n"], ["        keys = strargs[0::2]\n        values = strargs[1::2]\n", "        args = ' '.join(['%s=%s' % (k, v) for k, v in zip(keys, values)])\n"]),
+    M('quoter-at-module-level', F, ["        def maybe_quote(s):\n            # control-spec: a value is either a run of non-space\n            # characters or a QuotedString with C-style escapes\n            if ' ' in s or '\\t' in s or '\"' in s:\n                return '\"%s\"' % s.replace('\\\\', '\\\\\\\\').replace('\"', '\\\\\"')\n            return s\n        values = [maybe_quote(v) for v in values]\n", "class TorControlProtocol(LineOnlyReceiver):\n"],
+      ["        values = [_quote_conf_value(v) for v in values]\n", "def _quote_conf_value(s):\n    if ' ' in s or '\\t' in s or '\"' in s:\n        return '\"%s\"' % s.replace('\\\\', '\\\\\\\\').replace('\"', '\\\\\"')\n    return s\n\n\nclass TorControlProtocol(LineOnlyReceiver):\n"]),
     M('any-over-chars', F, "if ' ' in s or '\\t' in s or '\"' in s:", "if any(c in s for c in ' \\t\"'):"),
     M('crlf-in-loop-form', F, "if any('\\r' in x or '\\n' in x for x in strargs):", "if [x for x in strargs if '\\r' in x or '\\n' in x]:"),
 ]
